@@ -46,7 +46,7 @@ func (r *rpT) UnmarshalResourcePath(segments []restlicodec.Reader) error {
 
 type qpT struct{}
 
-func (q *qpT) NewInstance() *qpT                                      { return new(qpT) }
+func (q *qpT) NewInstance() *qpT                                     { return new(qpT) }
 func (q *qpT) DecodeQueryParams(restlicodec.QueryParamsReader) error { return nil }
 
 type entT struct{}
@@ -374,7 +374,10 @@ type result struct {
 	version string
 }
 
-func send(m *mount, verb, target string, hdr string, body []byte, tunnel bool) result {
+// mode 0: as is; 1: tunnelled (POST + override header, query in the body); 2: a stray X-HTTP-Method-Override header on a
+// request that is not a POST (Tunnel.tla: ignored, the request is routed by its own verb)
+func send(m *mount, verb, target string, hdr string, body []byte, mode int) result {
+	tunnel := mode == 1
 	u := "http://host" + m.prefix + target
 	path, query, _ := strings.Cut(u, "?")
 	var req *http.Request
@@ -399,6 +402,12 @@ func send(m *mount, verb, target string, hdr string, body []byte, tunnel bool) r
 		req.Header.Set(k, h.Get(k))
 	}
 	req.Header.Set("X-RestLi-Protocol-Version", "2.0.0")
+	if mode == 2 {
+		req.Header.Set("X-HTTP-Method-Override", map[bool]string{true: "DELETE", false: "GET"}[verb == "GET"])
+		if body == nil {
+			req.Header.Set("Content-Type", "application/x-www-form-urlencoded")
+		}
+	}
 	switch hdr {
 	case "absent":
 	case "unknown":
@@ -435,8 +444,8 @@ type violation struct {
 }
 
 var (
-	outMu sync.Mutex
-	out   *bufio.Writer
+	outMu  sync.Mutex
+	out    *bufio.Writer
 	vcount = map[string]int{}
 )
 
@@ -609,13 +618,17 @@ func main() {
 						if isMux && hasEmpty {
 							continue // ServeMux answers empty segments itself (redirect to the cleaned path)
 						}
-						for _, tunnel := range []bool{false, true} {
+						for mode := 0; mode < 3; mode++ {
+							tunnel := mode == 1
 							if tunnel && (m.name != "bare" || len(qs) == 0) {
 								continue // a client never tunnels an empty query
 							}
-							res := send(m, row.Verb, target, row.Hdr, body, tunnel)
+							if mode == 2 && (m.name != "bare" || row.Verb == "POST") {
+								continue
+							}
+							res := send(m, row.Verb, target, row.Hdr, body, mode)
 							c.Requests++
-							cs := map[string]any{"tree": row.T, "mount": m.name, "tunnelled": tunnel, "verb": row.Verb, "hdr": row.Hdr,
+							cs := map[string]any{"tree": row.T, "mount": m.name, "tunnelled": tunnel, "strayOverride": mode == 2, "verb": row.Verb, "hdr": row.Hdr,
 								"target": target, "status": res.status, "observed": res.obs.String(), "admissible": fmt.Sprint(exp)}
 							// invariants that hold for every request, specified or not
 							if len(res.rec.invoked) > 1 {
@@ -680,6 +693,9 @@ func main() {
 									expk := exp[0].st
 									key = fmt.Sprintf("C05/expected-%s/got-%s/%s/%s/%s/q=%s,ids=%s,act=%s", expk, res.obs.st, shape(t, row.Path), row.Verb, hdrClass(row.Hdr), q, ids, act)
 								}
+								if mode == 2 {
+									key = "C05/stray-override-on-" + row.Verb + "/" + key[4:]
+								}
 								emitViolation(key, fmt.Sprintf("%s %s (method header %s, mount %s, tunnelled %v): observed %s (HTTP %d), the specification admits %v",
 									row.Verb, target, row.Hdr, m.name, tunnel, res.obs, res.status, exp), cs)
 								continue
@@ -711,7 +727,7 @@ func main() {
 									emitViolation("C05/stack-trace-in-response", "response body carries a stack trace", cs)
 								}
 							}
-							if traceW != nil && m.name == "bare" && !tunnel {
+							if traceW != nil && m.name == "bare" && mode == 0 {
 								traceMu.Lock()
 								rowSeq++
 								if rowSeq%int64(*traceEvery) == 0 {
